@@ -127,7 +127,10 @@ def design_pegcore_run(tier, seed):
         mi = re.search(r"Finished computing initial states: (\d+) distinct", txt)
         if rc != 0 or not m:
             if "is violated" in txt:
-                return {"verdicts": [{"p": "DESIGN", "why": "design-level: PegMachine composed with PegContract logs a verdict (Levels=%d Wide=%s)" % (lv, wide),
+                # which property the design breaks: the one named by the contract's verdict; a wrong final result is C01's
+                ps = re.findall(r'p \|-> "(C\d\d)"', txt)
+                return {"verdicts": [{"p": ps[-1] if ps else "C01",
+                                      "why": "design-level: PegMachine composed with PegContract logs a verdict (Levels=%d Wide=%s)" % (lv, wide),
                                       "rule": "PegMachine.tla", "a": txt[-3000:], "b": 0}], "states": states, "transitions": trans}
             raise Broken("TLC failed on MC_PegCore.tla\n" + txt[-1500:])
         trans += int(m.group(1))
@@ -139,9 +142,9 @@ def design_pegcore_run(tier, seed):
 
 def design_pegcore_for(pid):
     def f(tier, seed):
-        r = design_pegcore(tier, seed)
-        for v in r.get("verdicts", []):
-            v["p"] = pid
+        r = dict(design_pegcore(tier, seed))
+        if "verdicts" in r:
+            r["verdicts"] = [v for v in r["verdicts"] if v["p"] == pid]
         return r
     return f
 
@@ -330,6 +333,7 @@ PROPS = {
         "note": "parse_tree_to_dot is not covered",
     },
     "C13": {
+        "extra": design_pegcore_for("C13"),
         "families": ["st", "act"],
         "must_count": ["state", "act", "cases"],
         "nontrivial_key": "state",
